@@ -7,7 +7,7 @@ ID = "C08"
 LEVEL = "exploration"
 RULE = ("network R-p1-J1-p2-J2-p3-T: leak site {J1, J2, T, J1+J2, J1+T} x area {1e-4, 5e-3} x Cd {0.75, 0.6, 1.0} x window "
         "{(0,None),(0,2h),(1h,3h),(1h20,2h40) off-grid,(None,None) never started} x demand model {DD, PDD} x J1 elevation "
-        "{0, above the HGL (negative pressure)} x history {add, add+remove, add+remove+add} x hydraulic step {1h, 30min} x pipe orientation {as drawn, p2 reversed, p1+p3 reversed}; report "
+        "{0, above the HGL (negative pressure)} x history {add, add+remove, add+remove+add} x hydraulic step {1h, 30min} x pipe orientation {as drawn, p2 reversed, p1+p3 reversed}; plus a leaking dead-end junction cut off from 2 h to 3 h by time controls on its only pipe; report "
         "'ALL'; fully crossed in quick except area x Cd (pairs {(1e-4,0.75),(5e-3,0.6),(5e-3,1.0)}), thorough crosses everything. "
         "oracle: formula inside the window at p>1e-4, ~0 at p<=0, exactly 0 outside, off-grid instants solved, node balance, "
         "remove_leak == never had a leak. non-trivial: some leak discharges > 1e-6 at some step and is off at another")
@@ -41,6 +41,17 @@ def cases(tier):
         s["leaks"] = [{"node": n, "area": area * (1 + i), "cd": cd, "start": win[0], "end": win[1]} for i, n in enumerate(sites)]
         s["hist"] = hist
         s["id"] = {"sites": list(sites), "area": area, "cd": cd, "win": list(win), "dm": dm, "high": high, "hist": hist, "hyd": hyd, "rev": list(rev)}
+        out.append(s)
+    # a leaking dead-end junction that is cut off from every source while its leak is active (its only pipe is closed at 2 h
+    # and reopened at 3 h): reported pressure 0 => leak 0, and the formula again after reconnection
+    for (area, cd), win, dm, hyd, rv in itertools.product(ac, WINDOWS, ("DD", "PDD"), (3600, 1800), (False, True)):
+        s = base(dm, False, hyd)
+        s["nodes"].append(J("J3", 2.0, [[0.004, None, None]]))
+        s["links"].append(P("p4", "J3", "J2") if rv else P("p4", "J2", "J3"))
+        s["controls"] = [{"kind": "time", "t": 2 * 3600, "link": "p4", "value": "CLOSED"}, {"kind": "time", "t": 3 * 3600, "link": "p4", "value": "OPEN"}]
+        s["leaks"] = [{"node": "J3", "area": area, "cd": cd, "start": win[0], "end": win[1]}]
+        s["hist"] = "add"
+        s["id"] = {"sites": ["J3-cut-off-2h-3h"], "area": area, "cd": cd, "win": list(win), "dm": dm, "high": False, "hist": "add", "hyd": hyd, "rev": ["p4"] if rv else []}
         out.append(s)
     return out
 
